@@ -109,12 +109,20 @@ def count_fds(path):
     return n
 
 
+LIM = 50_000_000   # TLC integers are 32 bit: offsets / sizes of a corrupt table are clamped (and the file marked broken)
+
+
+def clamp(v):
+    return max(-LIM, min(LIM, int(v)))
+
+
 def observe_disk(path, world):
     with open(path, "rb") as fh:
         raw = fh.read()
     p = refio.parse(raw)
-    rows = [[e["type"], e["format"], e["offset"], e["size"], world.cid_of(e["comment"]), e["cdate"], e["mdate"]]
-            for e in p.table]
+    rows = [[clamp(e["type"]), clamp(e["format"]), clamp(e["offset"]), clamp(e["size"]), world.cid_of(e["comment"]),
+             e["cdate"], e["mdate"]] for e in p.table]
+    absurd = any(abs(e["offset"]) > LIM or abs(e["size"]) > LIM for e in p.table) or len(raw) > LIM
     te = refio.HDR + refio.ENT * max(p.n, 0)
     live = sorted((e for e in p.table if e["type"] != 0), key=lambda e: e["offset"])
     ext = []
@@ -135,14 +143,15 @@ def observe_disk(path, world):
         # structurally broken: the clauses of C03 fire on the table; give the spec
         # a data region of the right length so that FileLen is still meaningful
         ext = [[-1, 0, max(len(raw) - te, 0)]] if len(raw) > te else []
+    ok = ok and not absurd
     return dict(broken=not ok, sigok=bool(p.sigok), short=bool(p.short), version=p.version, n=max(p.n, 0) if not p.short else 0,
-                flen=len(raw), sha=world.sha_id(p.sha), table=rows if not p.short else [], data=ext), p
+                flen=min(len(raw), LIM), sha=world.sha_id(p.sha), table=rows if not p.short else [], data=ext), p
 
 
 def proj_entries(entries, world):
     out = []
     for e in entries:
-        out.append([e.type.value, int(e.format), int(e.offset), int(e.size), world.cid_of(e.comment),
+        out.append([e.type.value, clamp(e.format), clamp(e.offset), clamp(e.size), world.cid_of(e.comment),
                     int(e.creation_date.timestamp()), int(e.last_modification_date.timestamp())])
     return out
 
